@@ -180,3 +180,20 @@ Proof.
   rewrite <- (firstn_skipn (Z.to_nat (a_e r - a_s r)) (skipn (Z.to_nat (a_s r)) (in_tx x))) at 1. f_equal.
   rewrite skipn_skipn_add. f_equal. lia.
 Qed.
+
+
+(* ------------------------------------------------------------------ obliged side: the set is its statement *)
+Lemma must_as_set_iff_lemma : forall x rs p,
+  In p (must_as_set x rs) <->
+  (exists r, In r rs /\ as_must_ok x r = true /\
+     let y := as_apply_gen false x r in
+     (In p (must_products y []) \/ exists h, In h (must_haps y) /\ In p (must_products y h))) /\
+  ~ RefProduct x p /\ ~ In p (in_pool x).
+Proof.
+  intros x rs p. unfold must_as_set. rewrite filter_In, novel_spec, in_flat_map. split.
+  - intros [(r & Hr & H) Hn]. split; auto. exists r. split; auto.
+    destruct (as_must_ok x r) eqn:E; [|destruct H]. split; auto. cbn zeta.
+    unfold must_products_as in H. rewrite in_app_iff, in_flat_map in H. exact H.
+  - intros [(r & Hr & E & H) Hn]. split; auto. exists r. split; auto. rewrite E.
+    unfold must_products_as. rewrite in_app_iff, in_flat_map. exact H.
+Qed.
